@@ -71,6 +71,21 @@ def srcAsks (src : StopSrc α) (ev : AnyEval W α) (e : Int) : Bool :=
   | .ok st => st.stop
   | .error _ => false
 
+/-- does some source of the list set the flag in its `on_epoch_end(e)`, the evaluator holding `ev`? -/
+def srcsAsk (l : List (StopSrc α)) (ev : AnyEval W α) (e : Int) : Bool := l.any (fun src => srcAsks src ev e)
+
+/-- THE DERIVED STOP REQUEST of epoch `e` for the callback list `before ++ [evaluator] ++ after` (`fit` entered at `start`,
+the evaluator holding `ev₀`): some source before the evaluator asks on the history of the epoch-ends `start … e-1`, or some
+source after it asks on that history extended by this epoch's evaluation. -/
+def multiAsk (before after : List (StopSrc α)) (ev₀ : AnyEval W α) (wof : Int → W) (start e : Int) : Bool :=
+  match evalAfter ev₀ wof (Train.epochRange start (e - 1)) with
+  | .error _ => false
+  | .ok evb =>
+    srcsAsk before evb e ||
+      (match evb.onEpochEnd e (wof e) with
+       | .error _ => false
+       | .ok eva => srcsAsk after eva e)
+
 /-- the request oracle of `QV.Train.fit` for the callback list `before ++ [evaluator] ++ after`, the identity of a
 callback being its POSITION in that list: a source before the evaluator is asked on the history without this epoch's
 evaluation, one after it with it; the evaluator itself never asks. -/
